@@ -350,7 +350,7 @@ def _lazy(modname, fn):
 
 
 PROPS = {
-    "C15": dict(targets=["btcdeb", "btcc", "tap", "btcdeb_tty"], asan_targets=["btcdeb", "btcc", "tap", "btcdeb_tty", "mc_bounds"], run=_lazy("c15_crash", "run"), replay=_lazy("c15_crash", "replay")),
+    "C15": dict(targets=["btcdeb", "btcc", "tap", "btcdeb_tty"], asan_targets=["btcdeb", "btcc", "tap", "btcdeb_tty", "mc_bounds", "kerlhist", "btcdeb_tty_rl"], run=_lazy("c15_crash", "run"), replay=_lazy("c15_crash", "replay")),
     "C12": dict(targets=["btcdeb", "btcdeb_tty", "mc_refcli", "mc_gen"], run=_lazy("c12_listing", "run"), replay=_lazy("c12_listing", "replay")),
     "C08": dict(targets=["btcdeb", "btcdeb_tty", "mc_refcli", "mc_gen"], run=_lazy("c08_batch", "run"), replay=_lazy("c08_batch", "replay")),
     "C09": dict(targets=["btcdeb", "btcdeb_tty", "mc_refcli", "mc_script"], run=run_c09, replay=replay_c09),
